@@ -122,6 +122,17 @@ impl Reduce {
     ///     - Add noise on the aggregations
     pub fn differentially_private(self, parameters: &DpParameters) -> Result<DpRelation> {
         let mut dp_event = DpEvent::no_op();
+        #[cfg(qrlew_verif)]
+        crate::verif::event(|| {
+            format!(
+                "{{\"ev\":\"dp_reduce\",\"epsilon\":{:e},\"delta\":{:e},\"tau_share\":{:e},\"max_groups\":{},\"groups\":{}}}",
+                parameters.epsilon,
+                parameters.delta,
+                parameters.tau_thresholding_share,
+                parameters.max_privacy_unit_groups,
+                self.group_by().len()
+            )
+        });
         // size of the dataset the aggregation runs on (the reduce itself may be a single row)
         let max_size = self.input().size().max().unwrap().clone();
         let pup_input = PupRelation::try_from(self.input().clone())?;
